@@ -20,6 +20,7 @@ ndim_max = 3
 
 sparse_array_imath = """
 def __i{name}__(self, other):
+    self._check_read_only()
     if other.__class__ is SparseArray:
         rows = self.rows
         other_rows = other.rows
@@ -550,7 +551,13 @@ class SparseArray:
         new.rows = rows
         return new
     
+    def _check_read_only(self):
+        for i in self.rows:
+            if i.__class__ is SparseVector and i.read_only:
+                raise ValueError('assignment destination is read-only')
+    
     def clear(self):
+        self._check_read_only()
         for i in self.rows: i.set.clear()
     
     def copy(self):
